@@ -739,6 +739,7 @@ func C17(c *core.Ctx) {
 
 	c17Round4(c)
 	c17Round4b(c)
+	c17DatasetFields(c)
 
 	// ---- R17.6 every dereference of an optional element of a decoded message in the
 	// management package (handlers with or without a mutation, dataset queries, the thread's
@@ -1694,4 +1695,76 @@ func c17Round4b(c *core.Ctx) {
 	}
 	c.Decide(bad == "", "R17.16", "command-period-bounded-before-scaling", "-", fmt.Sprintf("%d scalings of a command parameter to a time.Duration, each behind an upper bound", nMul), "a management handler scales a 64-bit period of the command to a time.Duration without an upper bound ("+bad+"): ExpirationPeriod values above 9223372036854 ms wrap to zero, to another period or to a negative one, the command is answered 200 and the response and rib/list report the wrapped value")
 	c.Floor("R17.16", "scalings of a command parameter to a Duration in fw/mgmt", nMul, 1)
+}
+
+// c17DatasetFields — R17.17 "each status dataset lists exactly the current table contents":
+// a field of a status dataset that is filled from an accessor named like a field of the same
+// dataset is filled from the accessor of ITS OWN name (NOutBytes from NOutBytes(), not from
+// NInBytes()). Stores into the mgmt_2022 status structs anywhere in fw/mgmt are compared.
+func c17DatasetFields(c *core.Ctx) {
+	p := c.P
+	pkg := core.ModPath + "/fw/mgmt"
+	nPairs := 0
+	var bad []string
+	for _, fn := range p.FuncsIn(pkg) {
+		if strings.HasSuffix(p.File(fn.Pos()), "_test.go") {
+			continue
+		}
+		core.Instrs(fn, func(in ssa.Instruction) {
+			st, ok := in.(*ssa.Store)
+			if !ok {
+				return
+			}
+			fa, ok := st.Addr.(*ssa.FieldAddr)
+			if !ok {
+				return
+			}
+			stt, okS := core.Deref(fa.X.Type()).Underlying().(*types.Struct)
+			if !okS || !strings.Contains(core.TypePkgPath(core.Deref(fa.X.Type())), "mgmt_2022") {
+				return
+			}
+			field := stt.Field(fa.Field).Name()
+			// the accessor the value comes from (through conversions / IdPtr-style wrappers)
+			v := core.StripConv(st.Val)
+			var meth string
+			for d := 0; d < 3 && v != nil; d++ {
+				cl, isCall := core.Strip(v).(*ssa.Call)
+				if !isCall {
+					break
+				}
+				if cl.Call.IsInvoke() {
+					meth = cl.Call.Method.Name()
+					break
+				}
+				if cal := cl.Call.StaticCallee(); cal != nil && cal.Signature.Recv() != nil {
+					meth = cal.Name()
+					break
+				}
+				if len(cl.Call.Args) == 1 { // a wrapper such as utils.IdPtr(x)
+					v = core.StripConv(cl.Call.Args[0])
+					continue
+				}
+				break
+			}
+			if meth == "" {
+				return
+			}
+			named := false
+			for i := 0; i < stt.NumFields(); i++ {
+				if stt.Field(i).Name() == meth {
+					named = true
+				}
+			}
+			if !named {
+				return
+			}
+			nPairs++
+			c.Funcs[core.FuncName(fn)] = true
+			if meth != field {
+				bad = append(bad, fmt.Sprintf("%s is filled from %s() in %s at %s", field, meth, core.FuncName(fn), c.Pos(in)))
+			}
+		})
+	}
+	c.Decide(len(bad) == 0, "R17.17", "dataset-field-from-its-own-accessor", "-", fmt.Sprintf("%d dataset fields filled from an accessor named like a field of the dataset, each from its own", nPairs), "a status dataset field is filled from the accessor of another field ("+strings.Join(bad, "; ")+"): the dataset does not list the current contents")
+	c.Floor("R17.17", "dataset fields filled from like-named accessors", nPairs, 6)
 }
